@@ -153,7 +153,15 @@ def check_stats(cl, h, f, A, fn, hist):
             elif len(rows) == 1:
                 checks += [("mean_curve(single)", h.mean_curve(dist), rows[0])]
             for name, got, want in checks:
-                if not close(got, want, 1e-9, 1e-12):
+                g_, w_ = np.asarray(got, dtype=float), np.asarray(want, dtype=float)
+                if g_.shape == w_.shape and not np.all(np.isfinite(w_)):
+                    # where the estimator is not a finite number (the log-standard deviation of a sample that contains a zero, and what is derived from it) nothing is
+                    # promised; everywhere else - the geometric mean, which is 0 there, included - the values are compared
+                    fin = np.isfinite(w_)
+                    ok_ = bool(close(g_[fin], w_[fin], 1e-9, 1e-12))
+                else:
+                    ok_ = close(got, want, 1e-9, 1e-12)
+                if not ok_:
                     cl.fail(fn, f"{name} [{dist}] = {np.asarray(got).ravel()[:4]} differs from the textbook estimator over the accepted windows {np.asarray(want).ravel()[:4]}",
                             signature=sig + ":" + name.split("(")[0], history=hist, n_accepted_peaks=int(len(pf)), n_accepted_windows=int(len(rows)))
                     return False
@@ -180,6 +188,14 @@ def history_clause(cl, rng, n, replay):
     for j in range(n):
         h, f, A = gen_object(rng)
         hist = []
+        if j % 6 == 5:
+            # a sample that is exactly 0 in one window (legal: amplitudes are >= 0), far below every peak: the geometric mean is 0 there, the log-standard deviation not finite,
+            # and the window counts in the n - 1 denominator like every other accepted window
+            import hvsrpy as _hv
+            A = A.copy()
+            A[int(rng.integers(0, len(A))), int(rng.integers(0, 2))] = 0.0
+            h = _hv.HvsrTraditional(f, A)
+            hist.append(("zero-sample",))
         if j % 4 == 1:
             # peak-finding options handed over in a dictionary the caller keeps and edits: the second search is made with the values the dictionary holds *then*
             from scipy.signal import find_peaks
